@@ -29,7 +29,8 @@ ASSUMPTIONS = ["protocol model: a run is init_at(s0) followed by unroll*; step t
 EXHAUSTIVE = True
 LEVEL_TEXT = ("Exhaustive finite-domain evaluation (3 flows x 16 use-classes x {disjoint, covered}) of filter predicates extracted from the compiler's type-checked program, "
               "plus path-counting and provenance rules: decides that every non-state signal class is defined exactly once per step and every state exactly once, for all systems at once. "
-              "This is the clause behind 'declared or defined exactly once'; tests never run this code offline.")
+              "This is the clause behind 'declared or defined exactly once'; tests never run this code offline."
+              " The expression-writer clauses of C05 (operator and sort of every written term) are re-evaluated here: 'every term is well-sorted' is part of this property.")
 LEVEL_NOTE = "Trusts the three-flow protocol model (DESIGN appendix A); does not decide define-before-use order, term sorts (C05) or semantic faithfulness of expr_in_step."
 TECHNIQUE = "boolean-predicate extraction + exhaustive truth-table partition check; path-count (exactly-once) analysis; narrowing-cast rule"
 
